@@ -59,6 +59,10 @@ def handle (op : String) (args : List String) : Option String :=
                        | some (v, p) => "ok:" ++ toString v.toNat ++ "," ++ toHex p
                        | none => "err:b58checksum")
       | none => badArgs
+  -- CBase58Data.from_bytes(data, nVersion)  ->  nVersion, data
+  | "c10.frombytes", [v, p] => some <| match parseInt? v, parseHex? p with
+      | some v, some p => renderData (Model.Base58.fromBytes p v)
+      | _, _ => badArgs
   -- str(CBase58Data.from_bytes(data, nVersion))
   | "c10.str", [v, p] => some <| match parseInt? v, parseHex? p with
       | some v, some p => (match Model.Base58.fromBytes p v with
